@@ -459,6 +459,140 @@ end:
 	free(skA); free(skB); free(idA.p); free(idB.p);
 }
 
+/* ---- DER layer of the wire objects ------------------------------------------------------- */
+/* dersig <hex>: sm9_signature_from_der alone -> "<ret> <consumed> <h> <S>" */
+static void do_dersig(char **w) {
+	buf_t b = hex2buf(w[1]); const uint8_t *p = b.p; size_t n = b.n; SM9_SIGNATURE sg; int r;
+	r = sm9_signature_from_der(&sg, &p, &n);
+	if (r == 1) { printf("1 %zu ", b.n - n); put_z(sg.h); printf(" "); put_g1(&sg.S); }
+	else printf("%d", r < 0 ? -1 : r);
+	free(b.p);
+}
+/* derct <hex>: sm9_ciphertext_from_der alone -> "<ret> <consumed> <C1> <c3> <c2>" */
+static void do_derct(char **w) {
+	buf_t b = hex2buf(w[1]); const uint8_t *p = b.p, *c2, *c3; size_t n = b.n, c2len; SM9_Z256_POINT C1; int r;
+	r = sm9_ciphertext_from_der(&C1, &c2, &c2len, &c3, &p, &n);
+	if (r == 1) { printf("1 %zu ", b.n - n); put_g1(&C1); printf(" "); puthex(c3, 32); printf(" "); puthex(c2, c2len); }
+	else printf("%d", r < 0 ? -1 : r);
+	free(b.p);
+}
+/* sigapi <ks> <id> <msg> <sig>: sm9_verify_finish on arbitrary signature bytes */
+static void do_sigapi(size_t nw, char **w) {
+	static SM9_SIGN_MASTER_KEY ms; static char last[80] = ""; sm9_z256_t ks; buf_t id, m, sg;
+	if (nw != 5 || !get_z(w[1], ks)) { printf("ERR"); return; }
+	if (strcmp(last, w[1])) { sm9_z256_copy(ms.ks, ks); sm9_z256_twist_point_mul_generator(&ms.Ppubs, ks); strncpy(last, w[1], 79); }
+	id = hex2buf(w[2]); m = hex2buf(w[3]); sg = hex2buf(w[4]);
+	printf("%d", verify_der(&ms, id.p, id.n, m.p, m.n, sg.p, sg.n));
+	free(id.p); free(m.p); free(sg.p);
+}
+/* ctapi <ke> <id> <ct>: sm9_decrypt on arbitrary ciphertext bytes -> "<ret> <plaintext>" */
+static void do_ctapi(size_t nw, char **w) {
+	static SM9_ENC_MASTER_KEY me; static SM9_ENC_KEY key; static char last[8300] = ""; sm9_z256_t ke; buf_t id, ct;
+	uint8_t *out; size_t outlen = 0; int r; char tag[8300];
+	if (nw != 4 || !get_z(w[1], ke) || strlen(w[2]) > 8000) { printf("ERR"); return; }
+	id = hex2buf(w[2]); ct = hex2buf(w[3]);
+	snprintf(tag, sizeof(tag), "%s %s", w[1], w[2]);
+	if (strcmp(last, tag)) {
+		sm9_z256_copy(me.ke, ke); sm9_z256_point_mul(&me.Ppube, ke, sm9_z256_generator());
+		if (sm9_enc_master_key_extract_key(&me, (char *)id.p, id.n, &key) != 1) { printf("ERR extract"); free(id.p); free(ct.p); return; }
+		strcpy(last, tag);
+	}
+	out = malloc(SM9_MAX_PLAINTEXT_SIZE + 1);
+	r = sm9_decrypt(&key, (char *)id.p, id.n, ct.p, ct.n, out, &outlen);
+	printf("%d", r < 0 ? -1 : r); if (r == 1) { printf(" "); puthex(out, outlen); }
+	free(out); free(id.p); free(ct.p);
+}
+/* key objects.  kinds: smsk smpk skey emsk empk ekey */
+typedef union { SM9_SIGN_MASTER_KEY sm; SM9_SIGN_KEY sk; SM9_ENC_MASTER_KEY em; SM9_ENC_KEY ek; } anykey_t;
+static int key_to_der(const char *kind, const anykey_t *k, uint8_t **p, size_t *len) {
+	if (!strcmp(kind, "smsk")) return sm9_sign_master_key_to_der(&k->sm, p, len);
+	if (!strcmp(kind, "smpk")) return sm9_sign_master_public_key_to_der(&k->sm, p, len);
+	if (!strcmp(kind, "skey")) return sm9_sign_key_to_der(&k->sk, p, len);
+	if (!strcmp(kind, "emsk")) return sm9_enc_master_key_to_der(&k->em, p, len);
+	if (!strcmp(kind, "empk")) return sm9_enc_master_public_key_to_der(&k->em, p, len);
+	if (!strcmp(kind, "ekey")) return sm9_enc_key_to_der(&k->ek, p, len);
+	return -2;
+}
+static int key_from_der(const char *kind, anykey_t *k, const uint8_t **p, size_t *len) {
+	if (!strcmp(kind, "smsk")) return sm9_sign_master_key_from_der(&k->sm, p, len);
+	if (!strcmp(kind, "smpk")) return sm9_sign_master_public_key_from_der(&k->sm, p, len);
+	if (!strcmp(kind, "skey")) return sm9_sign_key_from_der(&k->sk, p, len);
+	if (!strcmp(kind, "emsk")) return sm9_enc_master_key_from_der(&k->em, p, len);
+	if (!strcmp(kind, "empk")) return sm9_enc_master_public_key_from_der(&k->em, p, len);
+	if (!strcmp(kind, "ekey")) return sm9_enc_key_from_der(&k->ek, p, len);
+	return -2;
+}
+static int key_make(const char *kind, const sm9_z256_t k, const buf_t *id, anykey_t *out) {
+	memset(out, 0, sizeof(*out));
+	if (kind[0] == 's') {
+		SM9_SIGN_MASTER_KEY ms; sm9_z256_copy(ms.ks, k); sm9_z256_twist_point_mul_generator(&ms.Ppubs, k);
+		if (!strcmp(kind, "skey")) return sm9_sign_master_key_extract_key(&ms, (char *)id->p, id->n, &out->sk);
+		out->sm = ms; return 1;
+	} else {
+		SM9_ENC_MASTER_KEY me; sm9_z256_copy(me.ke, k); sm9_z256_point_mul(&me.Ppube, k, sm9_z256_generator());
+		if (!strcmp(kind, "ekey")) return sm9_enc_master_key_extract_key(&me, (char *)id->p, id->n, &out->ek);
+		out->em = me; return 1;
+	}
+}
+/* keyenc <kind> <k> <id>: DER of the object */
+static void do_keyenc(size_t nw, char **w) {
+	anykey_t k; sm9_z256_t s; buf_t id; uint8_t *buf = malloc(512), *p = buf; size_t len = 0;
+	if (nw != 4 || !get_z(w[2], s)) { printf("ERR"); free(buf); return; }
+	id = hex2buf(w[3]);
+	if (key_make(w[1], s, &id, &k) != 1 || key_to_der(w[1], &k, &p, &len) != 1) printf("ERR"); else puthex(buf, len);
+	free(buf); free(id.p);
+}
+/* keyder <kind> <hex>: X_from_der -> "<ret> <consumed> <re-encoding>" */
+static void do_keyder(size_t nw, char **w) {
+	anykey_t k; buf_t b; const uint8_t *p; size_t n; int r;
+	if (nw != 3) { printf("ERR"); return; }
+	b = hex2buf(w[2]); p = b.p; n = b.n; memset(&k, 0, sizeof(k));
+	r = key_from_der(w[1], &k, &p, &n);
+	if (r == 1) {
+		uint8_t *buf = malloc(512), *q = buf; size_t len = 0;
+		printf("1 %zu ", b.n - n);
+		if (key_to_der(w[1], &k, &q, &len) == 1) puthex(buf, len); else printf("REENC-FAIL");
+		free(buf);
+	} else printf("%d", r < 0 ? -1 : r);
+	free(b.p);
+}
+/* keyinfo <kind> <k> <id> <pass> <entropy>: password-encrypted PKCS#8 blob (kinds smsk skey emsk ekey) */
+static int info_enc(const char *kind, const anykey_t *k, const char *pass, uint8_t **p, size_t *len) {
+	if (!strcmp(kind, "smsk")) return sm9_sign_master_key_info_encrypt_to_der(&k->sm, pass, p, len);
+	if (!strcmp(kind, "skey")) return sm9_sign_key_info_encrypt_to_der(&k->sk, pass, p, len);
+	if (!strcmp(kind, "emsk")) return sm9_enc_master_key_info_encrypt_to_der(&k->em, pass, p, len);
+	if (!strcmp(kind, "ekey")) return sm9_enc_key_info_encrypt_to_der(&k->ek, pass, p, len);
+	return -2;
+}
+static int info_dec(const char *kind, anykey_t *k, const char *pass, const uint8_t **p, size_t *len) {
+	if (!strcmp(kind, "smsk")) return sm9_sign_master_key_info_decrypt_from_der(&k->sm, pass, p, len);
+	if (!strcmp(kind, "skey")) return sm9_sign_key_info_decrypt_from_der(&k->sk, pass, p, len);
+	if (!strcmp(kind, "emsk")) return sm9_enc_master_key_info_decrypt_from_der(&k->em, pass, p, len);
+	if (!strcmp(kind, "ekey")) return sm9_enc_key_info_decrypt_from_der(&k->ek, pass, p, len);
+	return -2;
+}
+static void do_keyinfo(size_t nw, char **w) {
+	anykey_t k; sm9_z256_t s; buf_t id; uint8_t *buf = malloc(SM9_MAX_ENCED_PRIVATE_KEY_INFO_SIZE), *p = buf; size_t len = 0;
+	if (nw != 6 || !get_z(w[2], s)) { printf("ERR"); free(buf); return; }
+	id = hex2buf(w[3]); script(w[5]);
+	if (key_make(w[1], s, &id, &k) != 1 || info_enc(w[1], &k, w[4], &p, &len) != 1) printf("ERR"); else puthex(buf, len);
+	free(buf); free(id.p);
+}
+/* keyinfodec <kind> <pass> <hex>: -> "<ret> <consumed> <plain DER of the recovered key>" */
+static void do_keyinfodec(size_t nw, char **w) {
+	anykey_t k; buf_t b; const uint8_t *p; size_t n; int r;
+	if (nw != 4) { printf("ERR"); return; }
+	b = hex2buf(w[3]); p = b.p; n = b.n; memset(&k, 0, sizeof(k));
+	r = info_dec(w[1], &k, w[2], &p, &n);
+	if (r == 1) {
+		uint8_t *buf = malloc(512), *q = buf; size_t len = 0;
+		printf("1 %zu ", b.n - n);
+		if (key_to_der(w[1], &k, &q, &len) == 1) puthex(buf, len); else printf("REENC-FAIL");
+		free(buf);
+	} else printf("%d", r < 0 ? -1 : r);
+	free(b.p);
+}
+
 static void handle(size_t nw, char **w) {
 	if (!strcmp(w[0], "fp") && (nw == 3 || nw == 4)) do_fp(nw, w);
 	else if (!strcmp(w[0], "fp2") && (nw == 3 || nw == 4)) do_fp2(nw, w);
@@ -480,6 +614,14 @@ static void handle(size_t nw, char **w) {
 		if (!get_z(w[1], ks)) { printf("ERR"); return; }
 		sm9_z256_twist_point_mul_generator(&Q, ks); sm9_z256_pairing(g, &Q, sm9_z256_generator()); put_fp12(g);
 	}
+	else if (!strcmp(w[0], "dersig") && nw == 2) do_dersig(w);
+	else if (!strcmp(w[0], "derct") && nw == 2) do_derct(w);
+	else if (!strcmp(w[0], "sigapi")) do_sigapi(nw, w);
+	else if (!strcmp(w[0], "ctapi")) do_ctapi(nw, w);
+	else if (!strcmp(w[0], "keyenc")) do_keyenc(nw, w);
+	else if (!strcmp(w[0], "keyder")) do_keyder(nw, w);
+	else if (!strcmp(w[0], "keyinfo")) do_keyinfo(nw, w);
+	else if (!strcmp(w[0], "keyinfodec")) do_keyinfodec(nw, w);
 	else if (!strcmp(w[0], "sign")) do_sign(nw, w);
 	else if (!strcmp(w[0], "verifyraw")) do_verifyraw(nw, w);
 	else if (!strcmp(w[0], "enc")) do_enc(nw, w);
